@@ -153,6 +153,14 @@ _modify_dispatch_descriptor_(struct qb_ipcs_connection *c)
 {
 	qb_ipcs_dispatch_mod_fn disp_mod = c->service->poll_fns.dispatch_mod;
 
+	if (c->state != QB_IPCS_CONNECTION_ESTABLISHED &&
+	    c->state != QB_IPCS_CONNECTION_ACTIVE) {
+		/*
+		 * The descriptors are closed (and their numbers may belong
+		 * to another connection by now).
+		 */
+		return -ENOTCONN;
+	}
 	if (c->service->type == QB_IPC_SOCKET) {
 		return disp_mod(c->service->poll_priority,
 				c->event.u.us.sock,
